@@ -20,7 +20,7 @@ TIERS = {
     'thorough': {'runs': 200000, 'chunk': 50, 'wall_cap': 850, 'min_budget': 60},
 }
 RULE = ('case = seeded netlist (<= 5 inputs, primitive gates, <= 2 primitive flip-flops/latches, 1-4 library instances of ONE built-in library; run i instantiates catalogue entry i mod |catalogue| so that every cell name '
-        'of every library is reached; instance pins connected by a random mask) + 1-8 transformation steps; table domain = ports and state elements (<= 10 variables exhaustive, else 1024 fixed pseudo-random rows), '
+        'of every library is reached; instance pins connected by a random mask) + 1-8 transformation steps; one case in 3000 starts from the shipped netlist b15_2ig.v.gz (~43000 nodes) instead; table domain = ports and state elements (<= 10 variables exhaustive, else 1024 pseudo-random rows derived from the variable names), '
         'observation = value at the data pin of every port/state element (unconnected = 0); non-trivial iff a resolve or substitute step was executed on a circuit containing an instance with an unconnected pin or '
         'a sequential/multi-output cell, or a restore happened between two other transformations; distinct = distinct case digests')
 REAL_VS_STUB = {'real': ['kyupy.circuit.Circuit: copy, __getstate__/__setstate__ (pickle), eliminate_1to1_forks, substitute, remove_dangling_nodes, resolve_tlib_cells, s_nodes', 'kyupy.techlib libraries and kyupy.bench.parse (providers of implementation circuits, trusted)'],
